@@ -253,6 +253,8 @@ def run(ctx):
     for _ in range(700 if quick else 15000):
         n = rng.randrange(6, 60)
         pts, fam = gen.dyadic_curve(rng, n, scale_exp=0)
+        pts, vt = gen.magnitude(rng, pts, 0.2, ('xytiny30', 'xtiny30', 'ytiny30', 'xyhuge30', 'yoff30'))
+        fam += vt
         k = rng.randrange(2, min(n - 2, 12) + 1)
         knees = sorted(rng.sample(range(1, n - 1), k))
         link = rng.choice(LINK)
